@@ -374,4 +374,6 @@ RULES = [
     RuleDef('R3', 'conversions carry fresh copies of meta/visual', r3, 22),
     RuleDef('R3b', 'every region constructor stores the meta/visual it is given', r3b, 23),
     RuleDef('R4', 'sky membership is the pixel image\'s answer (delegation, or the same answer term for point/line/text)', r4, 4),
+    RuleDef('R5', 'the shared scale/angle helper both directions rely on is the one C07.R1 decides (north offset of the '
+            'coordinate itself, in its own frame with its attributes)', lambda ctx: __import__('sa.rules.c07', fromlist=['r1']).r1(ctx), 1),
 ]
